@@ -22,6 +22,7 @@ static llvm::cl::OptionCategory cat("cxx2c");
 static llvm::cl::list<std::string> Targets("target", llvm::cl::desc("substring of 'qualified::name<targs>(param types)' of functions to extract"), llvm::cl::cat(cat));
 static llvm::cl::list<std::string> Outline("outline", llvm::cl::desc("<C-name substring>:<loop ordinal> — outline that loop body"), llvm::cl::cat(cat));
 static llvm::cl::list<std::string> AbstractOnly("abstract", llvm::cl::desc("signature substring of repository functions to emit as contract-only declarations"), llvm::cl::cat(cat));
+static llvm::cl::list<std::string> RecStub("rec-stub", llvm::cl::desc("signature substring: self-recursive calls inside these functions are emitted as calls to <name>__rec (contract stub)"), llvm::cl::cat(cat));
 static llvm::cl::opt<std::string> OutPrefix("o", llvm::cl::desc("output prefix (writes <prefix>.h <prefix>.c <prefix>.json)"), llvm::cl::Required, llvm::cl::cat(cat));
 static llvm::cl::opt<bool> AllowDtorSkip("allow-dtor-skip", llvm::cl::desc("do not abort on locals with non-trivial repository destructors (listed in json)"), llvm::cl::cat(cat));
 static llvm::cl::opt<bool> Inventory("inventory", llvm::cl::desc("only list variables with static storage duration (C19)"), llvm::cl::cat(cat));
@@ -77,6 +78,7 @@ public:
     Emitter E(ctx); E.allowDtorSkip = AllowDtorSkip;
     for (auto& o : Outline) { auto p = o.rfind(':'); if (p == std::string::npos) { llvm::errs() << "CXX2C ABORT: bad --outline\n"; exit(2); } E.outlineReq.insert({o.substr(0, p), atoi(o.c_str() + p + 1)}); }
     for (auto& a : AbstractOnly) E.abstractOnlyPatterns.insert(a);
+    for (auto& a : RecStub) E.recStubPatterns.insert(a);
     std::map<std::string, int> hits; Finder F(E, hits);
     try {
       E.seedWellKnownExceptions();
